@@ -95,22 +95,22 @@ Proof.
   destruct Hv as (l & -> & Hb). lia.
 Qed.
 
-(* ---- compare: length first, then the first differing char, compared as signed char *)
-Fixpoint cmp_lists (a b : list byte) : Z :=
+(* ---- compare: length first, then the first differing character, compared as the character type compares *)
+Fixpoint cmp_lists (ct : cty) (a b : list byte) : Z :=
   match a, b with
-  | x :: a', y :: b' => if x =? y then cmp_lists a' b' else if (schar x <? schar y)%Z then (-1)%Z else 1%Z
+  | x :: a', y :: b' => if x =? y then cmp_lists ct a' b' else if (sval ct x <? sval ct y)%Z then (-1)%Z else 1%Z
   | _, _ => 0%Z
   end.
-Definition cmp_ref (a b : list byte) : Z :=
-  if N.of_nat (length a) =? N.of_nat (length b) then cmp_lists a b
+Definition cmp_ref (ct : cty) (a b : list byte) : Z :=
+  if N.of_nat (length a) =? N.of_nat (length b) then cmp_lists ct a b
   else if N.of_nat (length a) <? N.of_nat (length b) then (-1)%Z else 1%Z.
 
-Lemma cmp_loop_ok a b k i : valid_view m a -> valid_view m b -> vlen a = vlen b -> i + N.of_nat k = vlen a ->
-  okR (cmp_loop m a (vptr b) k i)
-      (fun r => r = cmp_lists (skipn (N.to_nat i) (vtext m a)) (skipn (N.to_nat i) (vtext m b))) (either a b).
+Lemma cmp_loop_ok ct a b k i : valid_view m a -> valid_view m b -> vlen a = vlen b -> i + N.of_nat k = vlen a ->
+  okR (cmp_loop_g m ct a (vptr b) k i)
+      (fun r => r = cmp_lists ct (skipn (N.to_nat i) (vtext m a)) (skipn (N.to_nat i) (vtext m b))) (either a b).
 Proof.
   intros Ha Hb Hl. pose proof (vtext_length m a Ha) as La. pose proof (vtext_length m b Hb) as Lb.
-  revert i; induction k as [|k IH]; intros i Hk; cbn [cmp_loop].
+  revert i; induction k as [|k IH]; intros i Hk; cbn [cmp_loop_g].
   - apply okR_ret. rewrite !skipn_all2 by lia. reflexivity.
   - eapply okR_bind; [eapply okR_weaken; [apply rd_ok; [exact Ha|lia]|intros ? E; exact E|intros ? E; left; exact E]|].
     intros x ->. change (readp m (vptr b) i) with (rd m b i).
@@ -119,24 +119,38 @@ Proof.
     rewrite (skipn_cons_bat (vtext m a) i) by lia. rewrite (skipn_cons_bat (vtext m b) i) by lia. cbn [cmp_lists].
     destruct (bat (vtext m a) i =? bat (vtext m b) i); [apply IH; lia|apply okR_ret; reflexivity].
 Qed.
-Lemma compare_len_ok a b : valid_view m a -> valid_view m b ->
-  okR (compare_len m a (vptr b) (vlen b)) (fun r => r = cmp_ref (vtext m a) (vtext m b)) (either a b).
+Lemma compare_len_ok ct a b : valid_view m a -> valid_view m b ->
+  okR (compare_len_g m ct a (vptr b) (vlen b)) (fun r => r = cmp_ref ct (vtext m a) (vtext m b)) (either a b).
 Proof.
-  intros Ha Hb. unfold compare_len, cmp_ref. rewrite !vtext_length by assumption.
+  intros Ha Hb. unfold compare_len_g, cmp_ref. rewrite !vtext_length by assumption.
   destruct (N.eqb_spec (vlen a) (vlen b)) as [E|E].
   - eapply okR_weaken; [apply cmp_loop_ok; try assumption; lia| |auto]. intros r ->. reflexivity.
   - apply okR_ret. reflexivity.
 Qed.
 
+(* the char-named definitions (referred to by the translator tie) are the instance Char = char *)
+Lemma sval_char x : sval char_t x = schar x.
+Proof. unfold sval, schar, char_t. cbn [c_signed c_bits andb]. change (2 ^ (8 - 1)) with 128. change (Z.of_N (2 ^ 8)) with 256%Z.
+  destruct (N.leb_spec 128 x); destruct (N.ltb_spec x 128); try lia; reflexivity. Qed.
+Lemma cmp_loop_g_char a bp k i : cmp_loop_g m char_t a bp k i = cmp_loop m a bp k i.
+Proof.
+  revert i; induction k as [|k IH]; intros i; cbn [cmp_loop_g cmp_loop]; [reflexivity|].
+  unfold bindR. destruct (rd m a i) as [[x|?|?|] l1]; try reflexivity.
+  destruct (readp m bp i) as [[y|?|?|] l2]; try reflexivity.
+  rewrite !sval_char, IH. reflexivity.
+Qed.
+Lemma compare_len_g_char a bp n : compare_len_g m char_t a bp n = compare_len m a bp n.
+Proof. unfold compare_len_g, compare_len. rewrite cmp_loop_g_char. reflexivity. Qed.
+
 (* what the reference means *)
-Lemma cmp_lists_zero a b : length a = length b -> (cmp_lists a b = 0%Z <-> a = b).
+Lemma cmp_lists_zero ct a b : length a = length b -> (cmp_lists ct a b = 0%Z <-> a = b).
 Proof.
   revert b; induction a as [|x a IH]; intros [|y b] Hl; simpl in Hl; try discriminate; [tauto|].
   cbn [cmp_lists]. destruct (N.eqb_spec x y) as [->|E].
   - rewrite IH by lia. split; [intros ->; reflexivity|intros H; injection H; auto].
-  - split; [destruct (schar x <? schar y)%Z; discriminate|intros H; injection H; intros; contradiction].
+  - split; [destruct (sval ct x <? sval ct y)%Z; discriminate|intros H; injection H; intros; contradiction].
 Qed.
-Lemma cmp_ref_zero a b : cmp_ref a b = 0%Z <-> a = b.
+Lemma cmp_ref_zero ct a b : cmp_ref ct a b = 0%Z <-> a = b.
 Proof.
   unfold cmp_ref. destruct (N.eqb_spec (N.of_nat (length a)) (N.of_nat (length b))) as [E|E].
   - apply cmp_lists_zero. lia.
@@ -205,3 +219,15 @@ Proof.
     left. split; [reflexivity|]. intros j H1 H2. lia.
 Qed.
 End Ops2.
+
+(* ---- element ranges as byte ranges: every range is in elements of sizeof(Char) = cw ct bytes; a read range that
+   lies within a view covers, in bytes, [cw*ro, cw*(ro+rn)) inside the view's bytes [cw*off, cw*(off+len)) and
+   inside the buffer's cw * length bytes -- for every character width *)
+Lemma reads_in_bounds_bytes (ct : cty) (m : mem) b off len r : valid_view m (V b off len) -> within (V b off len) r ->
+  exists l, mem_get m (rb r) = Some l /\
+            cw ct * off <= cw ct * ro r /\ cw ct * ro r + cw ct * rn r <= cw ct * (off + len) /\
+            cw ct * (off + len) <= cw ct * N.of_nat (length l).
+Proof.
+  simpl. intros (l & Hl & Hb) (E & H1 & H2). subst b. exists l. split; [exact Hl|].
+  rewrite <- N.mul_add_distr_l. repeat split; apply N.mul_le_mono_l; assumption.
+Qed.
